@@ -389,6 +389,13 @@ def put_model(mjm: mujoco.MjModel, batch_sizes: dict[str, int] | None = None) ->
   if (mjm.sensor_plugin != -1).any():
     raise NotImplementedError("Sensor plugins not supported.")
 
+  # rangefinder: one ray along the z-axis of a site, reporting its length (dist or depth)
+  is_rangefinder = mjm.sensor_type == mujoco.mjtSensor.mjSENS_RANGEFINDER
+  if (mjm.sensor_objtype[is_rangefinder] != mujoco.mjtObj.mjOBJ_SITE).any():
+    raise NotImplementedError("Rangefinder sensors attached to cameras are not supported.")
+  if not np.isin(mjm.sensor_intprm[is_rangefinder, 0], (0, 1, 32)).all():
+    raise NotImplementedError("Rangefinder sensor data other than dist or depth is not supported.")
+
   if mjm.nflex > 0:
     for fi in range(mjm.nflex):
       if abs(mjm.flex_interp[fi]) == 2:
